@@ -597,7 +597,8 @@ pub fn selftest_determinism(n: u64) -> i32 {
     let known = Arc::new(KnownFile::default());
     let digest_of = |prop: &str, i: u64| -> u64 {
         let seed = run_seed(prop, 7, "selftest", i);
-        let profile = profile_for(prop);
+        let mut profile = profile_for(prop);
+        profile.deep = i % 7 == 3; // the thorough tier's deep runs are part of the self-test
         let mut rng = Rng::new(seed);
         let cfg = gen_cfg(&mut rng, &profile, i % 5 == 0);
         let mut sim = match Sim::new(&cfg, None) {
